@@ -19,6 +19,7 @@ import (
 	pb_local "github.com/buildbarn/bb-storage/pkg/proto/blobstore/local"
 	"github.com/buildbarn/bb-storage/pkg/random"
 	"github.com/buildbarn/bb-storage/pkg/util"
+	"github.com/prometheus/client_golang/prometheus"
 	"vsim/sim"
 
 	rt "verifsimrt"
@@ -379,6 +380,9 @@ type storeEnv struct {
 	routineG               int                   // goroutine id of the ProcessBlockPut routine
 	wconfig                bool                  // assembled by NewBlobAccessFromConfiguration
 	metricsBase            metricSnapshot
+	allocCounter           prometheus.Counter
+	releaseCounter         prometheus.Counter
+	allocBase, releaseBase float64
 	routineReturned        bool
 }
 
